@@ -446,7 +446,11 @@ SPEC = Spec(
         "chain, inputs come from the replacer. R09-PLACEMENT: the part bound of a "
         "stored array is the minimum over all sends depending on it, received "
         "arrays sit in the part of their receive; the verifier resolves a part "
-        "input against the outputs, then the receives, of all parts."),
+        "input against the outputs, then the receives, of all parts; the dependency "
+        "mappers the partitioner places arrays with include the node itself "
+        "(shared with R20-DEPS). R09-NAMES also: sent and received arrays cannot "
+        "get the same generated name (a forwarded receive gets a fresh one); the "
+        "table of generated names starts empty."),
     not_decided=(
         "The partition invariants on concrete partitions for all communication "
         "patterns (statements about run-time data structures), and acceptance by "
